@@ -21,6 +21,9 @@ type SoloShape struct {
 	ClockOnly bool
 	// ClockSteps allows the clock to step backwards.
 	ClockSteps bool
+	// HugePools: once in a few hundred scripts the verified pool holds more transactions than a 16-bit counter can
+	// express and the application sets no per-block limit (the callback's contract names none).
+	HugePools bool
 }
 
 // SoloOut is what a script run produced, in order.
@@ -65,6 +68,15 @@ func RunSoloScript(r sim.Src, mons []*sim.Mon, keepLog bool, sh SoloShape) *Solo
 	}
 	epoch := drawEpoch(r)
 	shift := sh.Shift + time.Duration(int64(sh.ShiftIncs)*int64(inc))
+	nearUnix := r.Intn("nearunixepoch", 6) == 0
+	if nearUnix {
+		// a clock that counts from (nearly) the Unix epoch, as a virtual clock may: an instant that is really an unset
+		// marker then lies close to "now" (seeded change C14k).  Such a run is only ever moved forward in time.
+		epoch = time.Unix(int64(100+r.Intn("unixsecs", 1200)), int64(r.Intn("epochns", 1000))*1_000_003).UTC()
+		if shift < 0 {
+			shift = -shift
+		}
+	}
 	base := make([]int, n)
 	for i := range base {
 		base[i] = i
@@ -75,6 +87,9 @@ func RunSoloScript(r sim.Src, mons []*sim.Mon, keepLog bool, sh SoloShape) *Solo
 		cfg.MaxTimePerBlock = tpb * time.Duration([]int{2, 3, 4, 6, 8}[r.Intn("dynratio", 5)]) / 2 // ratio 1, 1.5, 2, 3 or 4
 	}
 	out := &SoloOut{Classes: map[string]int{}, Shift: shift}
+	if nearUnix {
+		out.Classes["clock_near_unix_epoch"]++
+	}
 	tm := &sim.Mon{Name: "timerlog",
 		TimerReset: func(n *sim.Node, h uint32, v byte, d time.Duration) {
 			out.Timer = append(out.Timer, fmt.Sprintf("reset(%d,%d,%s)", h, v, d))
@@ -124,6 +139,13 @@ func RunSoloScript(r sim.Src, mons []*sim.Mon, keepLog bool, sh SoloShape) *Solo
 		nd.AddTx(s.W.NewTx(false))
 	}
 	nd.MaxTx = r.Intn("maxtx", 6) // 0: no limit
+	if sh.HugePools && sim.Scramble(r.Intn("hugepool", 400), 400) == 1 { // (not "== 0": rapid favours small values)
+		for i, k := 0, 65536+r.Intn("hugeextra", 8); i < k; i++ {
+			nd.AddTx(s.W.NewTx(false))
+		}
+		nd.MaxTx = 0
+		out.Classes["pool_above_65535"]++
+	}
 	nd.Start()
 	steps := 20 + r.Intn("steps", 6)*20
 	peer := 0 // rotating peer index for scripted messages
@@ -139,7 +161,7 @@ func RunSoloScript(r sim.Src, mons []*sim.Mon, keepLog bool, sh SoloShape) *Solo
 	for i := 0; i < steps && len(s.W.Viols) == 0 && !nd.Crashed; i++ {
 		s.W.Step = i + 1
 		d := nd.D
-		switch pick(r, "step", 14, 10, 14, 14, 14, 6, 6, 8, 4, 4, 8) {
+		switch pick(r, "step", 14, 10, 14, 14, 14, 6, 6, 8, 4, 4, 8, 4) {
 		case 0: // advance the clock
 			dt := tpb * time.Duration(1+r.Intn("dt", 40)) / 20
 			if r.Intn("fine", 3) == 0 {
@@ -230,6 +252,13 @@ func RunSoloScript(r sim.Src, mons []*sim.Mon, keepLog bool, sh SoloShape) *Solo
 					}
 					nd.Receive(s.Recovery(o[i%len(o)], d.ViewNumber, emb...))
 					out.Classes["recovery_with_preparations"]++
+				}
+			}
+		case 11: // a response that reaches the primary before it has proposed (an eager or faulty backup; it names some proposal)
+			if d.IsPrimary() && !d.RequestSentOrReceived() && !d.BlockSent() {
+				if j := nextPeer(); j >= 0 {
+					nd.Receive(s.Response(j, d.ViewNumber, vt.Sum([]byte{byte(i), 0xe})))
+					out.Classes["response_before_own_proposal"]++
 				}
 			}
 		default: // the clock steps back
@@ -745,6 +774,96 @@ func RunWatchOnlySolo(r sim.Src, mons []*sim.Mon, keepLog bool) *sim.World {
 		}
 	}
 	s.W.Stat("c13_solo")
+	s.W.Finish()
+	return s.W
+}
+
+// RunLargeCommittee (driver B): committees far larger than the worlds of driver A use (24..200 validators), the node
+// under test being the speaker of EVERY height (the list rotates around it), so that within a few heights it has heard
+// hundreds of backups: per-validator tables, counters and the round-trip estimator's fixed-size window are exercised
+// beyond their first wrap.  Each round: the node proposes (at Start, or when its timer fires), a drawn number of
+// backups (M-1 .. N-1) answer after drawn delays and in a drawn order, then commit (pre-commit first at anti-MEV
+// heights); the application re-initialises.  Seeded change C17j (ring index off by one) panics here.
+func RunLargeCommittee(r sim.Src, mons []*sim.Mon, keepLog bool) *sim.World {
+	n := []int{24, 40, 64, 70, 71, 72, 73, 100, 141, 200}[r.Intn("N", 10)]
+	self := r.Intn("self", n)
+	tpb := []time.Duration{time.Second, 5 * time.Second, 15 * time.Second}[r.Intn("tpb", 3)]
+	startTip := uint32(r.Intn("tip", 50))
+	amev := int64(-1)
+	if r.Intn("amev", 3) == 0 {
+		amev = 0
+	}
+	cfg := sim.Cfg{IDs: n, ValDesc: fmt.Sprintf("%d validators, rotated so that identity %d is the speaker of every height", n, self), StartTip: startTip,
+		AMEVHeight: amev, TimePerBlock: tpb, TsIncrement: 1_000_000, Epoch: epoch0}
+	cfg.Validators = func(h uint32) []int {
+		p := int(h % uint32(n)) // index of the speaker of view 0
+		out := make([]int, n)
+		for i := range out {
+			out[i] = ((self+i-p)%n + n) % n
+		}
+		return out
+	}
+	s := sim.NewSolo(cfg, r, self, false, mons, keepLog)
+	nd := s.N
+	nd.TipTs = uint64(epoch0.UnixNano()) - uint64(tpb)
+	for i, k := 0, r.Intn("ntx", 4); i < k; i++ {
+		nd.AddTx(s.W.NewTx(false))
+	}
+	s.W.Stat(fmt.Sprintf("N=%d", n))
+	nd.Start()
+	rounds := 1 + r.Intn("rounds", 6)
+	M := n - (n-1)/3
+	for round := 0; round < rounds && len(s.W.Viols) == 0 && !nd.Crashed; round++ {
+		d := nd.D
+		if !d.IsPrimary() {
+			s.W.Stat("large_not_speaker") // cannot happen with the rotating list
+			break
+		}
+		for tries := 0; tries < 3 && s.LastOwn(dbft.PrepareRequestType) == nil && nd.Timer.Pending && !nd.Crashed; tries++ {
+			s.Fire()
+		}
+		pp := s.LastOwn(dbft.PrepareRequestType)
+		if pp == nil || nd.Crashed {
+			break
+		}
+		// a drawn number of backups, in a drawn rotation of the list
+		others := s.Others()
+		k := M - 1 + r.Intn("answering", n-M+1)
+		off := r.Intn("answeroff", len(others))
+		var who []int
+		for i := 0; i < k && i < len(others); i++ {
+			who = append(who, others[(off+i)%len(others)])
+		}
+		step := time.Duration(r.Intn("rttstep", 40)) * time.Millisecond / 8
+		for _, j := range who {
+			if nd.Crashed || len(s.W.Viols) > 0 {
+				break
+			}
+			s.Advance(step)
+			nd.Receive(s.Response(j, d.ViewNumber, pp.Hash()))
+			s.W.Stat("large_response")
+		}
+		if s.W.Cfg.AMEVOn(d.BlockIndex) {
+			for _, j := range who {
+				if nd.Crashed || d.BlockSent() || len(s.W.Viols) > 0 {
+					break
+				}
+				nd.Receive(s.PreCommit(j, pp))
+			}
+		}
+		for _, j := range who {
+			if nd.Crashed || d.BlockSent() || len(s.W.Viols) > 0 {
+				break
+			}
+			nd.Receive(s.Commit(j, pp))
+		}
+		if !nd.NeedInit {
+			break
+		}
+		s.W.Stat("large_round_decided")
+		s.Advance(time.Duration(r.Intn("resetlag", 20)) * time.Millisecond)
+		nd.Reset()
+	}
 	s.W.Finish()
 	return s.W
 }
